@@ -1124,7 +1124,11 @@ int Interpret::interpFile(FILE* in) {
     Smt2newContext context(in);
     int rval = osmt_yyparse(&context);
 
-    if (rval != 0) return rval;
+    if (rval != 0) {
+        // the parser has printed where; the failure is an error response like any other (and decides the exit status)
+        notify_formatted(true, "syntax error");
+        return rval;
+    }
 
     const ASTNode* r = context.getRoot();
     execute(r);
@@ -1135,7 +1139,10 @@ int Interpret::interpFile(char *content){
     Smt2newContext context(content);
     int rval = osmt_yyparse(&context);
 
-    if (rval != 0) return rval;
+    if (rval != 0) {
+        notify_formatted(true, "syntax error");
+        return rval;
+    }
     const ASTNode* r = context.getRoot();
     execute(r);
     return rval;
